@@ -15,6 +15,11 @@
 //                        <= orth * sigma_j/sigma_i + delta_j / (sigma_i sigma_j)   (and the same with i, j exchanged).
 // The factor identities are asserted for singular values >= 1e-4 ||A||_F (as the property says); finiteness,
 // non-negativity and ordering of the singular values for every input including exactly rank-deficient ones.
+// Every returned value must be a singular value of A, with multiplicity (order-preserving injective matching into a long double
+// JacobiSVD reference); that they are the LARGEST ones is asserted when ncv = min(m,n) (complete factorization) or when the leading
+// values are well separated and above the absolute eps^(2/3) floor of the inner convergence test (see drive()).
+// "Describes the most recent compute()": after every factor request a fresh solver object is run with the arguments of the last
+// compute() (which re-initialises with a fixed seed, so the run is deterministic) and must return bit-identical factors.
 #include "vf/eigen_assert.hpp"
 #include <Eigen/Core>
 #include <Eigen/Sparse>
